@@ -402,6 +402,10 @@ def c16(ctx, api):
     st, summ = api['run_tlc_to_harness'](ctx, 'escape', 'GenEscape', cfg(constants={'Emit': 'TRUE', 'Prop': '"C16"', 'Wide': tb(thorough)}), timeout=1500)
     acc.add('GenEscape: \\uXXXX with every four-character body over %d hex digits and near-misses (+ - g _ x blank) in 5 literal positions; 21 control / separator '
             'characters raw inside each literal kind at 3 positions; every one-character escape' % (13 if thorough else 8), st, summ)
+    st, summ = api['run_tlc_to_harness'](ctx, 'num', 'GenNum', cfg(constants={'Emit': 'TRUE', 'Prop': '"C16"'}), timeout=1500)
+    acc.add('GenNum: 17 numerals of every length and exponent (inside and outside the decimal128 range) kept at full precision through 15 non-computing '
+            'forms; 41 spellings of 6 values (E / e, signed and zero-padded exponents, trailing zeros, shifted point) under 27 numeric functions and operators, '
+            'each paired with the canonical spelling', st, summ)
     return acc.result(RULE_PINNED, extra={'model_checks': ['LiteralDecodesToItself', 'DecEncRaw', 'DecEncQuoted', 'DecEncJSON', 'OneToken', 'CountLemma']})
 
 
@@ -468,6 +472,10 @@ def c05(ctx, api):
     st, summ = api['run_tlc_to_harness'](ctx, 'bigarr', 'GenBigArr', cfg(constants={'Emit': 'TRUE', 'Prop': '"C05"', 'Sizes': sizes}), timeout=1500)
     acc.add('GenBigArr: sum / avg / max / min / sort / sort_by on %s consecutive integers around 0, 2^53 and 10^15 in 6 Go carriers; '
             'expected values are closed forms computed by Decimal.tla (checked against Eval on small instances)' % sizes, st, summ)
+    st, summ = api['run_tlc_to_harness'](ctx, 'num', 'GenNum', cfg(constants={'Emit': 'TRUE', 'Prop': '"C05"'}), timeout=1500)
+    acc.add('GenNum: 17 numerals of every length and exponent (inside and outside the decimal128 range) kept at full precision through 15 non-computing '
+            'forms; 41 spellings of 6 values (E / e, signed and zero-padded exponents, trailing zeros, shifted point) under 27 numeric functions and operators, '
+            'each paired with the canonical spelling', st, summ)
     return acc.result(RULE_PINNED + '; results needing more than 34 digits admit exactly two values (truncation and truncation + 1 ulp) and count as unpinned',
                       extra={'model_checks': ['SmallLaws', 'BigLaws (thorough)', 'Commutative', 'CmpAntisymmetric']})
 
@@ -654,6 +662,10 @@ def c14(ctx, api):
     sizes = '{127, 128, 129, 255, 256, 257, 1000, 4096, 10000, 20000}' if thorough else '{127, 128, 129, 1000, 10000}'
     st4, summ4 = api['run_tlc_to_harness'](ctx, 'bigarr', 'GenBigArr', cfg(constants={'Emit': 'TRUE', 'Prop': '"C14"', 'Sizes': sizes}), timeout=1500)
     acc.add('GenBigArr: large arrays of consecutive integers around 2^53 held as json / int64 / uint64 / decimal / float64 / int', st4, summ4)
+    st, summ = api['run_tlc_to_harness'](ctx, 'num', 'GenNum', cfg(constants={'Emit': 'TRUE', 'Prop': '"C14"'}), timeout=1500)
+    acc.add('GenNum: 17 numerals of every length and exponent (inside and outside the decimal128 range) kept at full precision through 15 non-computing '
+            'forms; 41 spellings of 6 values (E / e, signed and zero-padded exponents, trailing zeros, shifted point) under 27 numeric functions and operators, '
+            'each paired with the canonical spelling', st, summ)
     return acc.result(RULE_PINNED + '; assignments whose Go kind cannot hold a value exactly are skipped (counted in cases_skipped)',
                       extra={'cases_skipped_carrier_cannot_hold_value': sum(s.get('skipped', 0) for s in [summ])})
 
